@@ -41,6 +41,7 @@ KERNELS = {
     "C36": ["k_comment_dispatch", "k_module_init"],
     "C37": ["k_do_use_prefix", "k_use_with"],
     "C18": ["k_formal_args_eval"],
+    "C20": ["k_bubble", "k_dest_start"],
     "C21": ["k_error_and_drop", "k_dest_start"],
     "C26": ["k_str_slice", "k_str_insert", "k_str_index_length"],
     "C29": ["k_math_bounding", "k_math_percentage", "k_math_clamp", "k_css_clamp", "k_find_extreme"],
@@ -494,6 +495,15 @@ STRUCTURAL_PROBES["k_dest_start"] = [
     ("a { @media screen { b: c; @supports (x: y) { d: e } } }", "b: c"),
     ("a { @foo bar { b: c; @media screen { d: e } } }", "b: c"),
     ("a { @media screen { b: c; @media (min-width: 1px) { d: e } } }", "b: c"),
+]
+STRUCTURAL_PROBES["k_bubble"] = [
+    ("a { b: c; @media screen { d: e } f: g }", "a { b: c; } @media screen { a { d: e; } } a { f: g; }"),
+    ("a { @media screen { d: e } }", "@media screen { a { d: e; } }"),
+    ("a { @supports (x: y) { d: e } }", "@supports (x: y) { a { d: e; } }"),
+    ("a { b: c; @keyframes k { from { d: e } } }", "a { b: c; } @keyframes k { from { d: e; } }"),
+    ("a { b: c; @font-face { d: e } f: g }", "a { b: c; } @font-face { d: e; } a { f: g; }"),
+    ("a { b: c; @foo bar { d: e } f: g }", "a { b: c; } @foo bar { a { d: e; } } a { f: g; }"),
+    ("a { b: c; d { e: f } }", "a { b: c; } a d { e: f; }"),
 ]
 STRUCTURAL_PROBES["k_module_init"] = [
     (({"a.scss": '@use "lib";\n.main { c: d }\n', "_lib.scss": "/* hello */\n.lib { /* in rule */ a: b }\n"}, "[compressed]a.scss"), ".lib{a:b}.main{c:d}"),
